@@ -7,7 +7,7 @@ if ! git diff --quiet; then echo "/repo has uncommitted changes" >&2; exit 2; fi
 if ! git apply "$PATCH"; then echo "patch does not apply" >&2; exit 2; fi
 trap 'git -C /repo checkout -- . ' EXIT
 for id in "$@"; do
-  out=$(cd /verif && VERIF_SEED=${VERIF_SEED:-3} ./check "$id" ${TIER:-quick} 2>&1)
+  out=$(cd /verif && VERIF_EVIDENCE_DIR=/verif/target/seeded-evidence VERIF_SEED=${VERIF_SEED:-3} ./check "$id" ${TIER:-quick} 2>&1)
   code=$?
   echo "== $id exit=$code $(echo "$out" | grep -E "^$id (quick|thorough)" | cut -c1-80)"
   echo "$out" | grep -E "^signature|VIOLATION|INTERNAL|INCONCLUSIVE" | head -4 | cut -c1-200
